@@ -1167,6 +1167,34 @@ def b_hash(I, f, args, kw):
     raise Unsupported('hash of non-scalar')
 
 
+def b_csv_reader(I, f, args, kw):
+    """csv.reader(file, delimiter=...): the trusted lexical layer.  Model: an arbitrary number of
+    records, each an arbitrary-length list of str cells; the first record has the width the
+    contract variant declares (a table's column count is concrete in this model)."""
+    k = getattr(I, 'csv_first_row_width', None)
+    if k is None:
+        raise Unsupported('csv.reader without a declared record model')
+    I.assumption(f'csv.reader: trusted lexical layer - yields the records of the file as lists of str cells '
+                 f'(arbitrary record count, per-record cell counts and cell texts; first record has {k} cells in this variant)')
+    n = fresh_int('csv.nrows')
+    rowlen = z3.Function(fresh_name('csv.rowlen'), z3.IntSort(), z3.IntSort())
+    cell = z3.Function(fresh_name('csv.cell'), z3.IntSort(), z3.IntSort(), z3.StringSort())
+    ctx = I.ex.ctx
+    ctx.add(n >= 0)
+    qi = z3.Int(fresh_name('qi'))
+    ctx.add(z3.ForAll([qi], rowlen(qi) >= 0, patterns=[rowlen(qi)]))
+    ctx.add(rowlen(z3.IntVal(0)) == k)
+
+    def row(i):
+        ci = concrete_int(VInt(i)) if not isinstance(i, int) else i
+        if ci == 0:
+            return VList([VStr(cell(z3.IntVal(0), z3.IntVal(j))) for j in range(k)])
+        return VSeq(rowlen(i), lambda j, i=i: VStr(cell(i, j)), None, 'list')
+    seq = VSeq(n, row, None, 'gen')
+    seq.csv_model = (n, rowlen, cell)
+    return seq
+
+
 def b_callable(I, f, args, kw):
     x = args[0]
     if isinstance(x, (VFunc, VClass, VKind)):
@@ -1332,6 +1360,6 @@ BUILTINS = {
     'any': b_any_all('any'), 'all': b_any_all('all'),
     'getattr': b_getattr, 'symmethod': b_symmethod, 'hasattr': b_hasattr, 'id': b_id,
     'hash': b_hash, 'callable': b_callable, 'iter': b_iter, 'next': b_next, 'repr': b_repr,
-    'sorted': b_sorted, 'reversed': b_reversed, 'abs': b_abs, 'print': b_print,
+    'reader': b_csv_reader, 'sorted': b_sorted, 'reversed': b_reversed, 'abs': b_abs, 'print': b_print,
     'combine': b_combine, 'isfinite': b_isfinite, 'fromordinal': b_fromordinal, 'isnan': b_isnan, 'time': b_opaque('time'),
 }
